@@ -21,7 +21,11 @@ def universe():
 
 
 def cases(tier, seed):
-    return stratified_sample(universe(), lambda c: c.get("stratum", ""), 260 if tier == "quick" else 0, seed)
+    u = universe()
+    if tier != "quick":
+        return u
+    # quick: stratified sample + the whole (cheap) width sweep
+    return stratified_sample([c for c in u if not c["id"].startswith("ws:")], lambda c: c.get("stratum", ""), 240, seed) + [c for c in u if c["id"].startswith("ws:")]
 
 
 def run_case(case):
